@@ -86,3 +86,40 @@ M('c03-tc-ps0', ['C03', 'C13'], TU, "    return torch.sum(gs[...,::2] * gs[...,1
 M('c03-ps0-slot', ['C03'], PU, 'ps0[j] += gs[j,2*i] * gs[j,2*i+1]', 'ps0[j] += gs[j,2*i] * gs[j,2*i]', ['R8'])
 M('c03-start', ['C03'], PU, '    ps_out = numpy.zeros((L_out,), dtype=numpy.int_)\n    for j_out', '    ps_out = numpy.ones((L_out,), dtype=numpy.int_)\n    for j_out', ['R7.start'])
 B('c03-benign-formula', ['C03'], PU, '    ps_out = (ps_in + ps0(gs_in) + ps_out)%4', '    ps_out = (ps_out + ps_in + ps0(gs_in))%4')
+
+# ------------------------------------------------------------------ C17
+M('c17-pauli-copy', ['C17'], PP, '        return Pauli(self.g.copy(), self.p)', '        return Pauli(self.g, self.p)', ['R4c'])
+M('c17-list-copy', ['C17'], PP, '        return PauliList(self.gs.copy(), self.ps.copy())', '        return PauliList(self.gs.copy(), self.ps)', ['R4c'])
+M('c17-poly-copy-cs', ['C17'], PP, '.set_cs(self.cs.copy())', '.set_cs(self.cs)', ['R4c'])
+M('c17-poly-copy-nocs', ['C17'], PP, '        return PauliPolynomial(self.gs.copy(), self.ps.copy()).set_cs(self.cs.copy())', '        return PauliPolynomial(self.gs.copy(), self.ps.copy())', ['R4d'])
+M('c17-mono-copy', ['C17'], PP, '        return PauliMonomial(self.g.copy(), self.p).set_c(self.c)', '        return PauliMonomial(self.g.copy(), self.p)', ['R4d'])
+M('c17-map-copy', ['C17'], PS, '        return CliffordMap(self.gs.copy(), self.ps.copy())', '        return CliffordMap(self.gs.copy())', ['R4d'])
+M('c17-state-copy-r', ['C17'], PS, '        return StabilizerState(self.gs.copy(), self.ps.copy()).set_r(self.r)', '        return StabilizerState(self.gs.copy(), self.ps.copy())', ['R4d'])
+M('c17-state-copy-view', ['C17'], PS, '        return StabilizerState(self.gs.copy(), self.ps.copy()).set_r(self.r)', '        return StabilizerState(self.gs[:], self.ps.copy()).set_r(self.r)', ['R4c'])
+M('c17-state-init-f1', ['C17', 'C05', 'C12'], PS, '    def __init__(self, gs, ps=None, r=0):\n        super(StabilizerState, self).__init__(gs, ps)', '    def __init__(self, gs, r=0, **kwargs):\n        super(StabilizerState, self).__init__(gs, **kwargs)', ['R4d', 'R2'])
+M('c17-gate-copy-gen', ['C17'], PC, '            gate.generator = self.generator.copy()', '            gate.generator = self.generator', ['R4c'])
+M('c17-gate-copy-map', ['C17'], PC, '            gate.forward_map = self.forward_map.copy()\n        if self.backward_map is not None:\n            gate.backward_map = self.backward_map.copy()\n        return gate', '            gate.forward_map = self.forward_map.copy()\n        return gate', ['R4d'])
+M('c17-layer-copy-gates', ['C17'], PC, '        layer = CliffordLayer(*[gate.copy() for gate in self.gates])', '        layer = CliffordLayer(*self.gates)', ['R4c'])
+M('c17-circ-copy-layer', ['C17'], PC, '            new_layer = layer.copy()\n            if i == 0:', '            new_layer = layer\n            if i == 0:', ['R4c'])
+M('c17-expect-nocopy', ['C17', 'C07'], PS, 'stabilizer_projection_trace(numpy.array(self.gs), numpy.array(self.ps), \\', 'stabilizer_projection_trace(self.gs, numpy.array(self.ps), \\', ['R4a'])
+B('c17-benign-obs-view', ['C17', 'C07'], PS, 'numpy.array(obs.gs[obs.r:obs.N,:]), numpy.array(obs.ps[obs.r:obs.N]), 0)', 'numpy.array(obs.gs[obs.r:obs.N,:]), obs.ps[obs.r:obs.N], 0)')
+M('c17-snapshot-nocopy', ['C17', 'C19'], PD, '            snapshot = self.state.copy()', '            snapshot = self.state', ['R4a'])
+M('c17-compose-inplace', ['C17', 'C04'], PS, '        gs, ps = pauli_transform(self.gs, self.ps, other.gs, other.ps)\n        return CliffordMap(gs, ps)', '        self.gs, self.ps = pauli_transform(self.gs, self.ps, other.gs, other.ps)\n        return self', ['R4a'])
+M('c17-entropy-destroy', ['C17'], PU, '        hidden = z2rank(gs_across_sub) - z2rank(acq_mat(gs_across_sub))', '        hidden = z2rank(gs) - z2rank(acq_mat(gs_across_sub))', ['R4a'])
+M('c17-measure-obs', ['C17'], PS, '        if isinstance(obs, StabilizerState):\n            obs = obs.stabilizers\n        self.gs, self.ps, self.r, out, log2prob = stabilizer_measure(', '        if isinstance(obs, StabilizerState):\n            obs = obs.stabilizers\n        obs.ps[:] = obs.ps % 4\n        self.gs, self.ps, self.r, out, log2prob = stabilizer_measure(', ['R4b'])
+M('c17-tc-expect-nocopy', ['C17', 'C07'], TS, 'stabilizer_projection_trace(self.gs.detach().clone(), self.ps.detach().clone(), \\', 'stabilizer_projection_trace(self.gs.detach(), self.ps.detach().clone(), \\', ['R4a'])
+M('c17-neg-inplace', ['C17'], PP, '    def __neg__(self):\n        return type(self)(self.gs, (self.ps + 2) % 4)', '    def __neg__(self):\n        self.ps[:] = (self.ps + 2) % 4\n        return self', ['R4a'])
+M('c17-rotate-generator', ['C17'], PP, '        if mask is None:\n            clifford_rotate(generator.g, generator.p, self.gs, self.ps)', '        if mask is None:\n            generator.g[:] = generator.g % 2\n            clifford_rotate(generator.g, generator.p, self.gs, self.ps)', ['R4b'])
+M('c17-getprob-inplace', ['C17', 'C07'], PS, '        readout_state = identity_map(self.N).to_state()\n        readout_state.ps[:self.N]=2*readout', '        readout_state = self\n        readout_state.ps[:self.N]=2*readout', ['R4a'])
+B('c17-benign-array', ['C17'], PP, '        return Pauli(self.g.copy(), self.p)', '        return Pauli(numpy.array(self.g), self.p)')
+B('c17-benign-kw', ['C17'], PS, '        return CliffordMap(self.gs.copy(), self.ps.copy())', '        return CliffordMap(gs=self.gs.copy(), ps=self.ps.copy())')
+
+# ------------------------------------------------------------------ C04
+M('c04-compose-order', ['C04'], PS, '        gs, ps = pauli_transform(self.gs, self.ps, other.gs, other.ps)\n        return CliffordMap(gs, ps)', '        gs, ps = pauli_transform(other.gs, other.ps, self.gs, self.ps)\n        return CliffordMap(gs, ps)', ['R2'])
+M('c04-inverse-sign', ['C04'], PS, '        ps_inv = (- ps_mis - ps0(gs_inv))%4', '        ps_inv = (ps_mis - ps0(gs_inv))%4', ['R6.inverse'])
+M('c04-inverse-drop-ps0', ['C04'], PS, '        ps_inv = (- ps_mis - ps0(gs_inv))%4', '        ps_inv = (- ps_mis)%4', ['R6.inverse'])
+M('c04-inverse-combine', ['C04'], PS, '        gs_iden, ps_mis = pauli_combine(gs_inv, self.gs, self.ps)', '        gs_iden, ps_mis = pauli_combine(self.gs, gs_inv, self.ps)', ['R2'])
+M('c04-inverse-inplace', ['C04', 'C17'], PS, '        gs_inv = z2inv(self.gs)\n', '        gs_inv = z2inv(self.gs)\n        self.ps[:] = self.ps % 4\n', ['R4a'])
+M('c04-inverse-return', ['C04'], PS, '        return CliffordMap(gs_inv, ps_inv)', '        return CliffordMap(gs_inv, ps_mis)', ['R2'])
+M('c04-identity', ['C04'], PS, '    gs = numpy.eye(2*N, dtype=numpy.int_)\n    return CliffordMap(gs)', '    gs = numpy.eye(2*N, dtype=numpy.int_)\n    return CliffordMap(gs, 2*numpy.ones(2*N, dtype=numpy.int_))', ['R12.identity'])
+M('c04-tc-compose-alias', ['C04'], TS, '        gs, ps = pauli_transform(self.gs, self.ps, other.gs, other.ps)\n        return CliffordMap(gs, ps)', '        gs, ps = pauli_transform(self.gs, self.ps, other.gs, other.ps)\n        return CliffordMap(gs, other.ps)', ['R4a', 'R2'])
